@@ -1,11 +1,10 @@
 //! C15 — no service is processed before the handshake or after channel close.
 use crate::common::*;
 use crate::props::c11;
-use crate::props::c12::{self, CI};
+use crate::props::c12::{self, srv_conn};
 use opcua::core::comms::chunker::Chunker;
-use opcua::core::comms::message_chunk::MessageChunk;
+use opcua::core::comms::message_chunk::MessageIsFinalType;
 use opcua::core::comms::tcp_types::HelloMessage;
-use opcua::core::supported_message::SupportedMessage;
 use opcua::server::comms::tcp_transport::TcpTransport;
 use opcua::types::*;
 use bytes::BytesMut;
@@ -17,49 +16,6 @@ use tokio_util::codec::Decoder;
 
 pub struct C15;
 pub static P: C15 = C15;
-
-pub fn service_chunk(kind: &str, c: CI) -> Option<MessageChunk> {
-    let msg: SupportedMessage = match kind {
-        "ge" => GetEndpointsRequest {
-            request_header: RequestHeader::new(&NodeId::null(), &DateTime::null(), 2),
-            endpoint_url: UAString::from(c12::endpoint_url()),
-            locale_ids: None,
-            profile_uris: None,
-        }
-        .into(),
-        "cs" => CreateSessionRequest {
-            request_header: RequestHeader::new(&NodeId::null(), &DateTime::null(), 3),
-            client_description: ApplicationDescription {
-                application_uri: UAString::from("urn:verif"),
-                product_uri: UAString::from("urn:verif"),
-                application_name: LocalizedText::from("verif"),
-                application_type: ApplicationType::Client,
-                gateway_server_uri: UAString::null(),
-                discovery_profile_uri: UAString::null(),
-                discovery_urls: None,
-            },
-            server_uri: UAString::null(),
-            endpoint_url: UAString::from(c12::endpoint_url()),
-            session_name: UAString::from("verif"),
-            client_nonce: ByteString::from(vec![7u8; 32]),
-            client_certificate: ByteString::null(),
-            requested_session_timeout: 60000.0,
-            max_response_message_size: 0,
-        }
-        .into(),
-        "clo" => CloseSecureChannelRequest {
-            request_header: RequestHeader::new(&NodeId::null(), &DateTime::null(), 4),
-        }
-        .into(),
-        _ => return None,
-    };
-    let sc = c11::client_channel(c.chan, 1, true);
-    let mut chunks = Chunker::encode(c.seq, c.req, 0, 0, &sc, &msg).ok()?;
-    if chunks.len() != 1 {
-        return None;
-    }
-    chunks.pop()
-}
 
 pub fn hello_of(kind: &str) -> Option<HelloMessage> {
     let url = c12::endpoint_url();
@@ -76,71 +32,89 @@ pub fn hello_of(kind: &str) -> Option<HelloMessage> {
     })
 }
 
-pub fn response_name(m: &SupportedMessage) -> String {
-    match m {
-        SupportedMessage::AcknowledgeMessage(_) => "ack".to_string(),
-        SupportedMessage::OpenSecureChannelResponse(r) => {
-            format!("opn chan={} token={}", r.security_token.channel_id, r.security_token.token_id)
-        }
-        SupportedMessage::GetEndpointsResponse(_) => "service GetEndpointsResponse".to_string(),
-        SupportedMessage::CreateSessionResponse(_) => "service CreateSessionResponse".to_string(),
-        SupportedMessage::ServiceFault(f) => format!("service ServiceFault:{}", f.response_header.service_result.name()),
-        _ => "service other".to_string(),
-    }
-}
 
-/// bytes of one frame given as dotted tokens (`hel.valid`, `ack`, `opn.issue.c:s:r`, `msg.ge.c:s:r`, `clo.c:s:r`)
-fn frame_bytes(spec: &str) -> Option<Vec<u8>> {
-    let p: Vec<&str> = spec.split('.').collect();
-    let enc = |m: &dyn Fn(&mut std::io::Cursor<Vec<u8>>)| {
-        let mut c = std::io::Cursor::new(Vec::new());
-        m(&mut c);
-        c.into_inner()
-    };
-    match p.as_slice() {
-        ["hel", k] => {
-            let mut h = hello_of(k)?;
-            // HelloMessage::new computed the size before a protocol version change; it is unaffected
-            h.message_header.message_size = h.byte_len() as u32;
-            Some(enc(&|c| {
-                h.encode(c).unwrap();
-            }))
-        }
-        ["ack"] => {
-            let e = opcua::core::comms::tcp_types::ErrorMessage::from_status_code(StatusCode::BadCommunicationError);
-            Some(enc(&|c| {
-                e.encode(c).unwrap();
-            }))
-        }
-        ["opn", ty, ci] => {
-            let c = c12::parse_ci(ci)??;
-            if *ty != "issue" && *ty != "renew" {
-                return None;
+/// bytes of the frames of a `sock` op (`hel.valid`, `ack`, `ch.<ty>.<c:s:r>.<F|C|A>.<size>.<rk>.<mal>`);
+/// the flag says whether the client waits for an answer after the frame
+fn sock_frames(specs: &str) -> Option<Vec<(Vec<u8>, bool)>> {
+    let l = srv_conn::lens();
+    let mut out = Vec::new();
+    // the body stream of the pending message, as `srv_conn::Conn` lays it out (pending is empty at
+    // the start and after every final / abort chunk)
+    let (mut stream, mut off, mut empty) = (Vec::new(), 0usize, true);
+    for sp in specs.split(',') {
+        let p: Vec<&str> = sp.split('.').collect();
+        match p.as_slice() {
+            ["hel", k] => {
+                let mut h = hello_of(k)?;
+                h.message_header.message_size = h.byte_len() as u32;
+                let mut c = std::io::Cursor::new(Vec::new());
+                h.encode(&mut c).ok()?;
+                out.push((c.into_inner(), true));
             }
-            Some(c12::open_request_chunks(c.seq, c.req, c.chan, *ty == "renew").pop()?.data)
+            ["ack"] => {
+                let e = opcua::core::comms::tcp_types::ErrorMessage::from_status_code(StatusCode::BadCommunicationError);
+                let mut c = std::io::Cursor::new(Vec::new());
+                e.encode(&mut c).ok()?;
+                out.push((c.into_inner(), true));
+            }
+            ["ch", ty, ci, f, n, rk, mal] => {
+                let c = c12::parse_ci(ci)??;
+                let fin = c12::fin_of(f)?;
+                let size: usize = n.parse().ok()?;
+                let req = srv_conn::request_bytes(rk)?;
+                if size < srv_conn::overhead(&l, ty) {
+                    return None;
+                }
+                if empty {
+                    stream = req;
+                    off = 0;
+                }
+                let blen = size - srv_conn::overhead(&l, ty);
+                let body: Vec<u8> = (off..off + blen).map(|i| *stream.get(i).unwrap_or(&0)).collect();
+                off += blen;
+                empty = fin != MessageIsFinalType::Intermediate;
+                let chunk = srv_conn::build_chunk(&l, ty, c, fin, size, &body, mal)?;
+                out.push((chunk.data, fin == MessageIsFinalType::Final));
+            }
+            _ => return None,
         }
-        ["msg", k, ci] => Some(service_chunk(k, c12::parse_ci(ci)??)?.data),
-        ["clo", ci] => Some(service_chunk("clo", c12::parse_ci(ci)??)?.data),
-        _ => None,
     }
+    Some(out)
 }
 
 /// The REAL connection: `TcpTransport::run` on one end of a loopback socket, the frames written to
-/// the other end one at a time; after each frame the client waits for one response frame or for
-/// the server to close the connection.
-async fn sock_run(frames: Vec<Vec<u8>>) -> Vec<String> {
+/// the other end one at a time; after each frame that can be answered the client waits for one
+/// response frame or for the server to close the connection.
+async fn sock_run(frames: Vec<(Vec<u8>, bool)>, mc: usize, mm: usize) -> Vec<String> {
     let listener = tokio::net::TcpListener::bind("127.0.0.1:0").await.expect("bind");
     let addr = listener.local_addr().unwrap();
     let mut client = tokio::net::TcpStream::connect(addr).await.expect("connect");
     let (server_sock, _) = listener.accept().await.expect("accept");
-    let transport = Arc::new(RwLock::new(c12::new_transport()));
+    let t0 = c12::new_transport();
+    {
+        let sc = t0.verif_secure_channel();
+        let mut sc = sc.write();
+        let mut o = sc.decoding_options();
+        o.max_chunk_count = mc;
+        o.max_message_size = mm;
+        sc.set_decoding_options(o);
+    }
+    let transport = Arc::new(RwLock::new(t0));
     TcpTransport::run(transport.clone(), server_sock, 1000.0);
     let mut codec = TcpCodec::new(DecodingOptions::default());
     let sc = c11::client_channel(0, 0, true);
     let mut buf = BytesMut::new();
     let mut outs = Vec::new();
     let mut eof = false;
-    for f in frames {
+    for (f, wait) in frames {
+        if !wait {
+            // a chunk that is not final: nothing comes back, do not wait
+            if !eof && client.write_all(&f).await.is_err() {
+                eof = true;
+            }
+            outs.push("-".to_string());
+            continue;
+        }
         if eof || client.write_all(&f).await.is_err() {
             eof = true;
             outs.push("eof".to_string());
@@ -155,7 +129,7 @@ async fn sock_run(frames: Vec<Vec<u8>>) -> Vec<String> {
                 Ok(Some(Message::Chunk(c))) => {
                     let req = c.chunk_info(&sc).map(|i| i.sequence_header.request_id).unwrap_or(0);
                     match Chunker::decode(&[c], &sc, None) {
-                        Ok(m) => outs.push(format!("{} req={}", response_name(&m), req)),
+                        Ok(m) => outs.push(format!("{} req={}", srv_conn::response_name(&m), req)),
                         Err(_) => outs.push("undecodable".to_string()),
                     }
                     break;
@@ -192,277 +166,164 @@ async fn sock_run(frames: Vec<Vec<u8>>) -> Vec<String> {
 
 // ------------------------------------------------------------------------------------------------
 
-fn gen_ci(rng: &mut Rng, chan: u64, seq: u64) -> String {
-    let c = if rng.chance(1, 12) { *rng.pick(&[0u64, 1, 2]) } else { chan };
-    let s = if rng.chance(1, 12) { (seq as i64 + rng.range(-2, 1)).max(0) as u64 } else { seq };
-    format!("{}:{}:{}", c, s, 10 + rng.below(90))
-}
-
-fn gen_frame(rng: &mut Rng, ws: &[u32], chan: &mut u64, seq: &mut u64, opened: &mut bool) -> String {
-    let line = match rng.weighted(ws) {
-        0 => format!("hel {}", *rng.pick(&["valid", "valid", "valid", "valid", "badurl", "smallbuf", "proto1"])),
-        1 => "ack".to_string(),
-        2 => {
-            let l = format!("opn issue {}", gen_ci(rng, *chan, *seq));
-            l
-        }
-        3 => format!("opn renew {}", gen_ci(rng, *chan, *seq)),
-        4 => format!("msg ge {}", gen_ci(rng, *chan, *seq)),
-        5 => format!("msg cs {}", gen_ci(rng, *chan, *seq)),
-        _ => format!("clo {}", gen_ci(rng, *chan, *seq)),
-    };
-    if !line.starts_with("hel") && line != "ack" {
-        *seq += 1;
-    }
-    if line.starts_with("opn issue") {
-        // the generator's guess of the channel id the server will hand out next
-        *chan = if *opened { *chan + 1 } else { 1 };
-        *opened = true;
-    }
-    line
-}
-
 impl Prop for C15 {
     fn id(&self) -> &'static str {
         "C15"
     }
 
     fn gen(&self, rng: &mut Rng, n: usize, tier: Tier, out: &mut Vec<String>) {
+        let l = srv_conn::lens();
         if tier == Tier::Thorough {
-            // every sequence of up to 4 frames over the alphabet {HEL, OPN issue, MSG, CLO} with consistent numbering
-            let alpha = ["hel valid", "opn issue", "msg ge", "clo", "opn renew"];
+            // every sequence of up to 4 frames over {HEL, OPN issue, OPN renew, MSG, CLO, MSG 'C', OPN 'C', MSG 'A'}
+            let alpha = ["hel", "oi", "or", "msg", "clo", "msgC", "opnC", "msgA"];
             for len in 1..=4usize {
                 for code in 0..alpha.len().pow(len as u32) {
-                    out.push("reset".to_string());
+                    out.push(srv_conn::reset_line(0, 0));
                     let (mut k, mut seq, mut chan, mut opened) = (code, 1u64, 0u64, false);
                     for _ in 0..len {
                         let a = alpha[k % alpha.len()];
                         k /= alpha.len();
-                        if a == "hel valid" {
-                            out.push(a.to_string());
-                        } else {
-                            out.push(format!("{} {}:{}:{}", a, chan, seq, 40 + seq));
+                        let ci = format!("{}:{}:{}", chan, seq, 40 + seq);
+                        let line = match a {
+                            "hel" => "hel valid".to_string(),
+                            "oi" => format!("ch opn {} F {} oi ok", ci, l.ov_opn + l.opn),
+                            "or" => format!("ch opn {} F {} or ok", ci, l.ov_opn + l.opn),
+                            "msg" => format!("ch msg {} F {} ge ok", ci, 24 + l.ge),
+                            "clo" => format!("ch clo {} F {} cl ok", ci, 24 + l.clo),
+                            "msgC" => format!("ch msg {} C {} ge ok", ci, 24 + 10),
+                            "opnC" => format!("ch opn {} C {} oi ok", ci, l.ov_opn + 10),
+                            _ => format!("ch msg {} A {} ge ok", ci, 24),
+                        };
+                        if a != "hel" {
                             seq += 1;
-                            if a == "opn issue" {
-                                chan = if opened { chan + 1 } else { 1 };
-                                opened = true;
-                            }
                         }
+                        if a == "oi" {
+                            chan = if opened { chan + 1 } else { 1 };
+                            opened = true;
+                        }
+                        out.push(line);
                     }
                 }
             }
         }
         for i in 0..n {
-            out.push("reset".to_string());
-            let (mut chan, mut seq, mut opened) = (0u64, 1u64, false);
+            out.push(srv_conn::reset_line(*rng.pick(&[0u64, 0, 5]), 0));
             // one case in 10 goes over a real loopback socket through TcpTransport::run
             let over_socket = i % 10 == 7;
             let start = out.len();
-            match rng.below(3) {
-                0 => {
-                    // orderly: HEL, OPN, then mostly services
-                    out.push("hel valid".to_string());
-                    out.push(gen_frame(rng, &[0, 0, 1], &mut chan, &mut seq, &mut opened));
-                    for _ in 0..rng.range(1, 8) {
-                        out.push(gen_frame(rng, &[1, 1, 2, 4, 12, 2, 2], &mut chan, &mut seq, &mut opened));
-                    }
-                }
-                1 => {
-                    // HEL first, then anything
-                    out.push("hel valid".to_string());
-                    for _ in 0..rng.range(1, 7) {
-                        out.push(gen_frame(rng, &[1, 1, 4, 3, 6, 1, 3], &mut chan, &mut seq, &mut opened));
-                    }
-                }
-                _ => {
-                    for _ in 0..rng.range(1, 6) {
-                        out.push(gen_frame(rng, &[4, 1, 3, 2, 4, 1, 2], &mut chan, &mut seq, &mut opened));
-                    }
-                }
-            }
+            srv_conn::gen_case(rng, &l, srv_conn::Profile::Ordering, 0, 0, tier == Tier::Thorough, out);
             if over_socket {
-                let frames: Vec<String> = out.drain(start..).map(|l| l.replace(' ', ".")).collect();
-                out.push(format!("sock {}", frames.join(",")));
+                let frames: Vec<String> = out.drain(start..).filter(|l| !l.starts_with("setlast"))
+                    // (a size field that differs from the frame length desynchronises a byte stream: not a frame)
+                    .map(|l| l.replace(" badsize", " ok").replace(' ', "."))
+                    .collect();
+                if !frames.is_empty() {
+                    out.push(format!("sock {}", frames.join(",")));
+                }
             }
         }
     }
 
     fn runner(&self) -> Box<dyn Runner> {
-        Box::new(R { t: c12::new_transport(), phase: 0, acked: false, opened: false, clo_seen: false })
+        Box::new(R { conn: None, acked: false, opened: false, clo_seen: false })
     }
 }
 
 struct R {
-    t: TcpTransport,
-    /// the reading loop of `spawn_reading_loop_task`, restated: 0 = waiting for HEL, 1 = reading
-    /// chunks, 2 = loop ended
-    phase: u8,
+    conn: Option<srv_conn::Conn>,
     // oracle bookkeeping, from the responses alone
     acked: bool,
     opened: bool,
     clo_seen: bool,
 }
 
-impl R {
-    /// the property, on what the connection answered to this frame
-    fn oracle(&mut self, frame: &str, responses: &[(u32, SupportedMessage)]) -> Verdict {
-        let class = if !self.acked {
-            "before-hello"
-        } else if self.clo_seen {
-            "after-close"
-        } else if !self.opened {
-            "before-open"
-        } else {
-            "open"
-        };
-        for (_, m) in responses {
-            let name = response_name(m);
-            if self.clo_seen {
-                return Verdict::fail("nothing_after_close", class, format!("{} answered with {}", frame, name));
-            }
-            if !self.acked && name != "ack" {
-                return Verdict::fail("only_hello_first", class, format!("{} answered with {}", frame, name));
-            }
-            if name.starts_with("service") && !self.opened {
-                return Verdict::fail("no_service_before_open", class, format!("{} answered with {}", frame, name));
-            }
-            if name == "ack" {
-                self.acked = true;
-            }
-            if name.starts_with("opn") {
-                self.opened = true;
-            }
+/// the property on a sequence of (frame description, what came back)
+fn order_oracle(acked: &mut bool, opened: &mut bool, clo_seen: &mut bool, frame: &str, is_final_clo: bool, names: &[String]) -> Verdict {
+    let class = if !*acked {
+        "before-hello"
+    } else if *clo_seen {
+        "after-close"
+    } else if !*opened {
+        "before-open"
+    } else {
+        "open"
+    };
+    let mut v = Verdict::Ok;
+    for name in names {
+        if name == "eof" || name == "-" {
+            continue;
         }
-        Verdict::Ok
+        if *clo_seen {
+            v = Verdict::fail("nothing_after_close", class, format!("{} answered with {}", frame, name));
+            break;
+        }
+        if !*acked && name != "ack" {
+            v = Verdict::fail("only_hello_first", class, format!("{} answered with {}", frame, name));
+            break;
+        }
+        if name.starts_with("service") && !*opened {
+            v = Verdict::fail("no_service_before_open", class, format!("{} answered with {}", frame, name));
+            break;
+        }
+        if name == "ack" {
+            *acked = true;
+        }
+        if name.starts_with("opn") {
+            *opened = true;
+        }
     }
+    if is_final_clo && *acked {
+        *clo_seen = true;
+    }
+    v
 }
 
 impl Runner for R {
     fn step(&mut self, toks: &[&str]) -> (String, Verdict) {
-        if toks == ["reset"] {
+        if let ["reset", "conn", mc, mm, ..] = toks {
+            self.conn = Some(srv_conn::Conn::new(mc.parse().unwrap_or(0), mm.parse().unwrap_or(0)));
             return ("ok".to_string(), Verdict::Ok);
         }
         if let ["sock", specs] = toks {
-            let mut frames = Vec::new();
-            for sp in specs.split(',') {
-                match frame_bytes(sp) {
-                    Some(f) => frames.push(f),
-                    None => return ("bad-op".to_string(), Verdict::Ok),
-                }
-            }
+            let Some(frames) = sock_frames(specs) else {
+                return ("bad-op".to_string(), Verdict::Ok);
+            };
             let rt = tokio::runtime::Builder::new_current_thread().enable_all().build().unwrap();
-            let outs = rt.block_on(sock_run(frames));
+            let (mc, mm) = self.conn.as_ref().map(|c| (c.max_chunks, c.max_msg)).unwrap_or((0, 0));
+            let outs = rt.block_on(sock_run(frames, mc, mm));
             drop(rt);
-            // the property on what came back over the socket
             let (mut acked, mut opened, mut clo) = (false, false, false);
             let mut v = Verdict::Ok;
             for (sp, o) in specs.split(',').zip(outs.iter()) {
-                let class = if !acked { "before-hello" } else if clo { "after-close" } else if !opened { "before-open" } else { "open" };
                 if o == "timeout" || o == "garbage" || o == "undecodable" || o == "errframe" {
-                    v = Verdict::fail("socket_protocol", class, format!("{} -> {}", sp, o));
+                    v = Verdict::fail("socket_protocol", "-", format!("{} -> {}", sp, o));
                     break;
                 }
-                if o != "eof" {
-                    if clo {
-                        v = Verdict::fail("nothing_after_close", class, format!("{} answered with {}", sp, o));
-                        break;
-                    }
-                    if !acked && o != "ack" {
-                        v = Verdict::fail("only_hello_first", class, format!("{} answered with {}", sp, o));
-                        break;
-                    }
-                    if o.starts_with("service") && !opened {
-                        v = Verdict::fail("no_service_before_open", class, format!("{} answered with {}", sp, o));
-                        break;
-                    }
-                }
-                if o == "ack" {
-                    acked = true;
-                }
-                if o.starts_with("opn") {
-                    opened = true;
-                }
-                if sp.starts_with("clo") && acked {
-                    clo = true;
+                let p: Vec<&str> = sp.split('.').collect();
+                let final_clo = p.len() == 7 && p[1] == "clo" && p[3] == "F";
+                let r = order_oracle(&mut acked, &mut opened, &mut clo, sp, final_clo, &[o.clone()]);
+                if let Verdict::Fail { .. } = r {
+                    v = r;
+                    break;
                 }
             }
             let names: Vec<String> = outs.iter().map(|o| o.replace(' ', "_")).collect();
             return (format!("ok [{}]", names.join(",")), v);
         }
+        let Some(conn) = self.conn.as_mut() else {
+            return ("bad-op".to_string(), Verdict::Ok);
+        };
+        let Some((line, info)) = conn.step(toks) else {
+            return ("bad-op".to_string(), Verdict::Ok);
+        };
         let frame = toks.join(" ");
-        // build the frame first (bad-op must not depend on the state)
-        enum F {
-            Hello(HelloMessage),
-            Other,
-            Chunk(MessageChunk, u32),
-        }
-        let f = match toks {
-            ["hel", k] => match hello_of(k) {
-                Some(h) => F::Hello(h),
-                None => return ("bad-op".to_string(), Verdict::Ok),
-            },
-            ["ack"] => F::Other,
-            ["opn", ty, ci] => match (c12::parse_ci(ci), *ty) {
-                (Some(Some(c)), "issue") | (Some(Some(c)), "renew") => {
-                    F::Chunk(c12::open_request_chunks(c.seq, c.req, c.chan, *ty == "renew").pop().unwrap(), c.req)
-                }
-                _ => return ("bad-op".to_string(), Verdict::Ok),
-            },
-            ["msg", k, ci] => match c12::parse_ci(ci) {
-                Some(Some(c)) => match service_chunk(k, c) {
-                    Some(ch) => F::Chunk(ch, c.req),
-                    None => return ("bad-op".to_string(), Verdict::Ok),
-                },
-                _ => return ("bad-op".to_string(), Verdict::Ok),
-            },
-            ["clo", ci] => match c12::parse_ci(ci) {
-                Some(Some(c)) => F::Chunk(service_chunk("clo", c).unwrap(), c.req),
-                _ => return ("bad-op".to_string(), Verdict::Ok),
-            },
-            _ => return ("bad-op".to_string(), Verdict::Ok),
-        };
-        if self.phase == 2 {
-            return ("err closed".to_string(), Verdict::Ok);
-        }
-        let is_clo = toks[0] == "clo";
-        let (responses, result): (Vec<(u32, SupportedMessage)>, Result<(), StatusCode>) = match (self.phase, f) {
-            (0, F::Hello(h)) => self.t.verif_process_hello(h, 65536, 65536),
-            (0, _) => (vec![], Err(StatusCode::BadCommunicationError)), // wait_for_hello: "Expected a hello message"
-            (_, F::Chunk(c, _)) => self.t.verif_process_chunk(c),
-            (_, _) => (vec![], Err(StatusCode::BadCommunicationError)), // "Received unexpected message"
-        };
-        let v = self.oracle(&frame, &responses);
-        if is_clo && self.phase == 1 {
-            self.clo_seen = true;
-        }
-        let line = match &result {
-            Err(e) => {
-                self.phase = 2;
-                format!("err {}", e.name())
+        let final_clo = matches!(&info.chunk, Some((ty, _, fin, _)) if ty == "clo" && *fin == MessageIsFinalType::Final) && !info.was_closed;
+        let mut v = order_oracle(&mut self.acked, &mut self.opened, &mut self.clo_seen, &frame, final_clo, &info.responses);
+        if let Verdict::Ok = v {
+            if info.err.is_some() && !info.responses.is_empty() {
+                v = Verdict::fail("error_without_answer", "-", "a frame that closed the connection was also answered");
             }
-            Ok(()) => {
-                if self.phase == 0 {
-                    self.phase = 1;
-                }
-                match responses.first() {
-                    None => "ok none".to_string(),
-                    Some((id, m)) => {
-                        let n = response_name(m);
-                        if n == "ack" {
-                            "ok ack".to_string()
-                        } else {
-                            format!("ok {} req={}", n, id)
-                        }
-                    }
-                }
-            }
-        };
-        let v = match v {
-            Verdict::Ok if result.is_err() && !responses.is_empty() => {
-                Verdict::fail("error_without_answer", "-", "a frame that closed the connection was also answered")
-            }
-            v => v,
-        };
+        }
         (line, v)
     }
 }
